@@ -173,6 +173,23 @@ m("M17e_decode_rebase", ["C17"], [("pdf/src/file.rs", "        let data = self.b
 m("M17f_last_marker", ["C17"], [("pdf/src/backend.rs", "            .position(|window| window == HEADER)", "            .rposition(|window| window == HEADER)")], expect="C17-TABLE")
 m("M17g_version_abs", ["C17"], [("pdf/src/file.rs", "self.backend.read(self.start_offset+1..self.start_offset+8)", "self.backend.read(1..8)")], expect="C17-UNITS", note="version string of a prefixed file read from the junk")
 
+# ------------------------------------------------------------------ C09
+m("M09a_refs_first", ["C09"], [("pdf/src/file.rs", "        match self.changes.get(&r.id) {\n            Some((p, _)) => Ok((*p).clone()),\n            None => match t!(self.refs.get(r.id)) {",
+   "        match self.changes.get(&r.id) {\n            Some((p, _)) if !matches!(self.refs.get(r.id), Ok(XRef::Raw {..})) => Ok((*p).clone()),\n            _ => match t!(self.refs.get(r.id)) {")],
+  expect="C09-G1", note="pending update of a directly stored object is ignored by reads until saved")
+m("M09b_truncate", ["C09"], [("pdf/src/file.rs", "        let mut changes: Vec<_> = self.changes.iter().collect();\n        changes.sort_unstable_by_key(|&(id, _)| id);",
+   "        if self.backend.ends_with(b\"%%EOF\") { let l = self.backend.len() - 5; self.backend.truncate(l); }\n        let mut changes: Vec<_> = self.changes.iter().collect();\n        changes.sort_unstable_by_key(|&(id, _)| id);")],
+  expect="C09-G3", note="previous revision no longer an unmodified prefix")
+m("M09c_no_space_after_obj", ["C09", "C04"], [("pdf/src/file.rs", "            writeln!(self.backend, \"{} {} obj\", id, gen)?;\n            primitive.serialize", "            write!(self.backend, \"{} {} obj\", id, gen)?;\n            primitive.serialize")],
+  expect="ADJ", note="`1 0 obj42`: fuses for bodies starting with a regular byte")
+m("M09d_startxref_abs", ["C09"], [("pdf/src/file.rs", "write!(self.backend, \"\\nstartxref\\n{}\\n%%EOF\", xref_pos).unwrap();", "write!(self.backend, \"\\nstartxref\\n{}\\n%%EOF\", xref_pos + self.start_offset).unwrap();")],
+  expect="C09-UNITS", note="only wrong for files with junk before the header")
+m("M09e_update_free_creates", ["C09"], [("pdf/src/file.rs", "            XRef::Promised => PlainRef { id: old.id, gen: 0 },\n            XRef::Invalid => panic!()", "            XRef::Promised => return self.create(obj),\n            XRef::Invalid => panic!()")],
+  expect="C09-G2", note="fulfil of a promise returns a different reference than promised")
+
+m("M09f_abs_positions", ["C09"], [("pdf/src/file.rs", "            let pos = self.backend.len() - self.start_offset;", "            let pos = self.backend.len();")], expect="C09-UNITS",
+  note="(= defect repaired by cdfe09a) needs a source file with bytes before the header")
+
 
 def gen_patch(mu):
     files = {}
